@@ -666,6 +666,8 @@ func (st *runState) finishWith(ri *simcheck.RunInfo, sim *simrt.Sim, sys *System
 					if ks := fpLabels[f]; len(ks) > 0 && !ks[x.LabelKey] {
 						add("C04", "label-document-mismatch", fmt.Sprintf("%s: stored label document differs from the pushed label set", r.Op.Proto),
 							fmt.Sprintf("req%d stream %d pushed {%s}; fingerprint %d is stored with %v", r.ID, x.Stream, x.LabelKey, f, keys(ks)))
+						add("C03", "entry-reattributed", fmt.Sprintf("%s: entry stored under the fingerprint of another label set", r.Op.Proto),
+							fmt.Sprintf("req%d stream %d entry %d pushed with labels {%s} is stored under fingerprint %d whose series document is %v", r.ID, x.Stream, x.Entry, x.LabelKey, f, keys(ks)))
 					}
 				}
 				// C04 discoverability: an index row (fp, type or 0, day) durable before the ack,
